@@ -288,6 +288,25 @@ Theorem C11_tiered_history_accounting :
   paid = tiers (t_limit w) * 100000000 /\ out = paid.
 Proof. exact t_history_accounting. Qed.
 
+(* Member { member } (flex kinds): answers the stored pair; an error exactly when the
+   well-formed address is not stored (flex) / only for a pair stored in the active stage
+   (tiered-flex) *)
+Theorem C11_flex_member_query_stored :
+  forall (valid : addr -> bool) a w c,
+  q_member valid a w = Ok c -> w_kind w = KFlex /\ In (a, c) (w_mem w).
+Proof. exact q_member_stored. Qed.
+
+Theorem C11_flex_member_query_error_means_absent :
+  forall (valid : addr -> bool) a w,
+  w_kind w = KFlex -> valid a = true -> q_member valid a w = Err -> ~ In a (keys (w_mem w)).
+Proof. exact q_member_missing. Qed.
+
+Theorem C11_tiered_flex_member_query_stored :
+  forall (valid : addr -> bool) now a w c,
+  tq_member valid now a w = Ok c ->
+  t_flex w = true /\ exists k, active_index now 0 (t_stages w) = Some k /\ In (k, a, c) (t_mem w).
+Proof. exact tq_member_stored. Qed.
+
 (* ================= admin list (all list kinds) ================= *)
 (* CanExecute { sender } answers true exactly for an address in the stored admin list; the
    list changes only through update_admins (to exactly the given list) and freeze, both
@@ -452,6 +471,9 @@ Print Assumptions C11_tiered_remove_stage_effect.
 Print Assumptions C11_tiered_creation_fee_exact_and_forwarded.
 Print Assumptions C11_tiered_call_fee_exact_and_forwarded.
 Print Assumptions C11_tiered_history_accounting.
+Print Assumptions C11_flex_member_query_stored.
+Print Assumptions C11_flex_member_query_error_means_absent.
+Print Assumptions C11_tiered_flex_member_query_stored.
 Print Assumptions C11_can_execute_iff_admin.
 Print Assumptions C11_admin_list_changes.
 Print Assumptions C11_tiered_can_execute_iff_admin.
